@@ -1413,16 +1413,19 @@ def sensors_temperatures():
                         os.path.join(base, trip_point + "_temp"), fallback=None
                     )
 
-                if high is not None:
-                    try:
-                        high = float(high) / 1000.0
-                    except ValueError:
-                        high = None
-                if critical is not None:
-                    try:
-                        critical = float(critical) / 1000.0
-                    except ValueError:
-                        critical = None
+            # Convert once, after all trip points have been read (doing
+            # it inside the loop divided a value found earlier again on
+            # each later iteration).
+            if high is not None:
+                try:
+                    high = float(high) / 1000.0
+                except ValueError:
+                    high = None
+            if critical is not None:
+                try:
+                    critical = float(critical) / 1000.0
+                except ValueError:
+                    critical = None
 
             ret[unit_name].append(('', current, high, critical))
 
